@@ -119,12 +119,13 @@ func Authorize(ctx context.Context, policies cedar.PolicyIterator, entities type
 	findVariables(&found, request.Action)
 	findVariables(&found, request.Resource)
 	findVariables(&found, request.Context)
-	for key := range found.All() {
+	// report the first offending variable in name order, not in map order
+	for _, key := range slices.Sorted(found.All()) {
 		if _, ok := request.Variables[key]; !ok {
 			return fmt.Errorf("%w: %v", errUnboundVariable, key)
 		}
 	}
-	for k := range request.Variables {
+	for _, k := range slices.Sorted(maps.Keys(request.Variables)) {
 		if !found.Contains(k) {
 			return fmt.Errorf("%w: %v", errUnusedVariable, k)
 		}
